@@ -263,7 +263,13 @@ def wl_counting(ctx, rng, case):
     keys = gen.universe(rng, rng.randint(2, 16))
     hname, hf = gen.pick_hash(rng, keys)
     # sometimes one large amount per operand: counts beyond the signed 32-bit range but (unless positions coincide) below the counter limit
-    bigA, bigB = rng.choice([(None, None)] * 8 + [(2**31 - 10, None), (None, 2**31 + 5), (2**31 - 10, 2**31 - 700), (3 * 10**9, 10**9)])
+    bigA, bigB = rng.choice([(None, None)] * 8 + [(2**31 - 10, None), (None, 2**31 + 5), (2**31 - 10, 2**31 - 700), (3 * 10**9, 10**9),
+                                                    (2**31 + 1, 2**31 + 7), (3 * 10**9, 2 * 10**9), (2**32 - 5, 2**31)])
+    if bigA and bigB and not aligned and rng.random() < 0.7:
+        # both operands hold a counter beyond 2^31 (for different keys, as a rule at different positions): in filters of SEVERAL THOUSAND
+        # counters, so that the two sit anywhere in the array
+        est, rate, m, k = gen.bloom_geometry(rng, small=False, max_bits=12000)
+        ctx.count("counting_pairs_with_huge_counters_in_both_operands_of_a_long_array")
     A, cA = legit_stream(rng, keys, rng.randint(0, 14), bigA)
     B, cB = legit_stream(rng, keys, rng.randint(0, 14), bigB)
     if rng.random() < 0.15:
